@@ -140,6 +140,50 @@ pub fn text_tokens(b: &[u8]) -> Vec<usize> {
     out
 }
 
+/// Codec metadata integers: the uint7 integer that starts at a byte offset of a valid stream is replaced by each of
+/// these (v = its value); every offset is treated as a possible integer start (a superset of the real metadata
+/// integers: sizes, run lengths, symbol counts, chunk sizes).
+pub const CODEC_INT_SLOTS: u64 = 8;
+pub fn codec_int_value(v: u64, slot: u64, thorough: bool) -> u64 {
+    match slot {
+        0 => 0,
+        1 => 1,
+        2 => v.saturating_sub(1),
+        3 => v + 1,
+        4 => 2 * v,
+        5 => 100,
+        6 => 1 << 16,
+        // quick: 1000 (a 2^31-1 output size makes the bit-pack decoder run for 15+ s: thorough only)
+        _ => {
+            if thorough {
+                (1 << 31) - 1
+            } else {
+                1000
+            }
+        }
+    }
+}
+fn uint7_at(b: &[u8], p: usize) -> Option<(u64, usize)> {
+    let mut v = 0u64;
+    for (i, &x) in b[p..].iter().enumerate().take(5) {
+        v = (v << 7) | (x & 0x7f) as u64;
+        if x & 0x80 == 0 {
+            return Some((v, i + 1));
+        }
+    }
+    None
+}
+fn uint7_enc(mut n: u64) -> Vec<u8> {
+    let mut out = vec![(n & 0x7f) as u8];
+    n >>= 7;
+    while n > 0 {
+        out.push((n & 0x7f) as u8 | 0x80);
+        n >>= 7;
+    }
+    out.reverse();
+    out
+}
+
 /// Decimal numeral tokens of a text: maximal digit runs, with a leading `-` when that follows a delimiter.
 /// Returned as `(offset << 16) | length`.
 pub fn numeral_tokens(b: &[u8]) -> Vec<usize> {
@@ -291,11 +335,12 @@ pub fn valid_streams(thorough: bool) -> Vec<ValidStream> {
         for (o, on) in [(cv::Order::Zero, "order0"), (cv::Order::One, "order1")] {
             push(Codec::Rans4x8, format!("{on} of {name}"), vmc::catch(|| cv::rans_4x8_encode(o, src)));
         }
-        for bits in [0u8, 0x01, 0x40, 0x80, 0x20, 0x04, 0x08] {
+        // (0x60 RLE|CAT, 0x41 RLE|order-1, 0xc0 PACK|RLE, 0xa0 PACK|CAT: the metadata of one transform next to another)
+        for bits in [0u8, 0x01, 0x40, 0x80, 0x20, 0x04, 0x08, 0x60, 0x41, 0xc0, 0xa0] {
             let fl = cv::RansNx16Flags::from_bits_truncate(bits);
             push(Codec::RansNx16(n), format!("flags {bits:#04x} of {name}"), vmc::catch(|| cv::rans_nx16_encode(fl, src)));
         }
-        for bits in [0u8, 0x01, 0x40, 0x80, 0x20, 0x04] {
+        for bits in [0u8, 0x01, 0x40, 0x80, 0x20, 0x04, 0x41, 0xc0, 0xa0] {
             let fl = cv::AacFlags::from_bits_truncate(bits);
             push(Codec::Aac(n), format!("flags {bits:#04x} of {name}"), vmc::catch(|| cv::aac_encode(fl, src)));
         }
@@ -359,6 +404,9 @@ pub struct Plan {
     pub streams: Vec<ValidStream>,
     pub stream_starts: Vec<u64>,
     pub stream_total: u64,
+    /// codec_ints stage: (stream index, first case) per stream that takes part.
+    pub cint_starts: Vec<(usize, u64)>,
+    pub cint_total: u64,
     /// Nesting-depth family (see nest.rs).
     pub nest: Vec<NestCase>,
     pub nest_target: nest::Targets,
@@ -372,6 +420,7 @@ pub const ST_CODEC_MUT: u32 = 4;
 pub const ST_NEST: u32 = 5;
 pub const ST_NUM: u32 = 6;
 pub const ST_MB: u32 = 7;
+pub const ST_CODEC_INT: u32 = 8;
 
 fn layer_len(d: &Doc, layer: Layer) -> usize {
     match layer {
@@ -582,6 +631,16 @@ impl Plan {
             stream_starts.push(t);
             t += s.bytes.len() as u64 * stream_n_sub(s, n_sub) + s.bytes.len() as u64;
         }
+        // fqzcomp decoding costs >= 25 ms per call: its streams are left to the thorough tier
+        let mut cint_starts = Vec::new();
+        let mut cint_total = 0u64;
+        for (si, st) in streams.iter().enumerate() {
+            if matches!(st.codec, Codec::Gzip(_) | Codec::Bzip2(_) | Codec::Lzma(_)) || (!thorough && st.codec == Codec::Fqzcomp) {
+                continue;
+            }
+            cint_starts.push((si, cint_total));
+            cint_total += st.bytes.len() as u64 * CODEC_INT_SLOTS;
+        }
         let nest_target = nest::Targets::find(&docs);
         let mut nest_cases = Vec::new();
         for entry in nest::Entry::ALL {
@@ -604,7 +663,7 @@ impl Plan {
                 nest_cases.push(NestCase { entry, leaf: nest::Leaf::Zeros, depth: 1_000, stack: 8 << 20 });
             }
         }
-        Self { thorough, docs, others, prep, trunc: Table::new(trunc), subst: Table::new(subst), fields: Table::new(fields), nums: Table::new(nums), mbs: Table::new(mbs), n_sub, codecs, max_len, streams, stream_starts, stream_total: t, nest: nest_cases, nest_target }
+        Self { thorough, docs, others, prep, trunc: Table::new(trunc), subst: Table::new(subst), fields: Table::new(fields), nums: Table::new(nums), mbs: Table::new(mbs), n_sub, codecs, max_len, streams, stream_starts, stream_total: t, cint_starts, cint_total, nest: nest_cases, nest_target }
     }
 
     fn strings_total(&self) -> u64 {
@@ -826,6 +885,24 @@ impl Plan {
     }
 
     fn codec_case(&self, stage: u32, case: u64) -> (Codec, Vec<u8>, String) {
+        if stage == ST_CODEC_INT {
+            let r = self.cint_starts.partition_point(|&(_, s)| s <= case) - 1;
+            let (si, first) = self.cint_starts[r];
+            let st = &self.streams[si];
+            let k = case - first;
+            let off = (k / CODEC_INT_SLOTS) as usize;
+            let slot = k % CODEC_INT_SLOTS;
+            return match uint7_at(&st.bytes, off) {
+                Some((v, w)) => {
+                    let nv = codec_int_value(v, slot, self.thorough);
+                    let mut b = st.bytes[..off].to_vec();
+                    b.extend(uint7_enc(nv));
+                    b.extend_from_slice(&st.bytes[off + w..]);
+                    (st.codec, b, format!("valid stream ({}) with the uint7 integer at byte {off} ({w} bytes): {v} -> {nv}", st.what))
+                }
+                None => (st.codec, st.bytes.clone(), format!("valid stream ({}), no uint7 integer at byte {off}", st.what)),
+            };
+        }
         if stage == ST_CODEC_ALL {
             let per = self.strings_total();
             let c = self.codecs[(case / per) as usize];
@@ -919,7 +996,7 @@ pub fn payload_doc(format: Format, set: &str, mode: Mode, bed_n: usize, raw: boo
 
 impl Stages for Plan {
     fn n_stages(&self) -> u32 {
-        8
+        9
     }
     fn norm_panic_msg(&self, stage: u32, msg: &str) -> String {
         if stage != ST_MB {
@@ -952,16 +1029,17 @@ impl Stages for Plan {
     }
     fn order(&self) -> Vec<u32> {
         // the (small) nesting stage first: a time cap must not cut it
-        vec![ST_NEST, ST_NUM, ST_MB, ST_TRUNC, ST_SUBST, ST_FIELDS, ST_CODEC_ALL, ST_CODEC_MUT]
+        vec![ST_NEST, ST_NUM, ST_MB, ST_CODEC_INT, ST_TRUNC, ST_SUBST, ST_FIELDS, ST_CODEC_ALL, ST_CODEC_MUT]
     }
     fn stage_name(&self, stage: u32) -> String {
-        ["truncations", "substitutions", "fields", "codec_strings", "codec_streams", "nesting", "numerals", "multibyte"][stage as usize].to_string()
+        ["truncations", "substitutions", "fields", "codec_strings", "codec_streams", "nesting", "numerals", "multibyte", "codec_ints"][stage as usize].to_string()
     }
     fn stage_len(&self, stage: u32) -> u64 {
         match stage {
             ST_NEST => self.nest.len() as u64,
             ST_NUM => self.nums.total,
             ST_MB => self.mbs.total,
+            ST_CODEC_INT => self.cint_total,
             ST_TRUNC => self.trunc.total,
             ST_SUBST => self.subst.total,
             ST_FIELDS => self.fields.total,
@@ -997,7 +1075,7 @@ impl Stages for Plan {
                 nest::Out::NoInput => Verdict::Trivial,
             };
         }
-        if matches!(stage, ST_CODEC_ALL | ST_CODEC_MUT) {
+        if matches!(stage, ST_CODEC_ALL | ST_CODEC_MUT | ST_CODEC_INT) {
             let (codec, bytes, _) = self.codec_case(stage, case);
             let r = codec.decode(&bytes);
             let mut h = std::collections::hash_map::DefaultHasher::new();
@@ -1029,7 +1107,7 @@ impl Stages for Plan {
             let (decoded, payload) = nest::describe(&self.nest[case as usize], &self.nest_target);
             return (decoded, String::new(), payload);
         }
-        if matches!(stage, ST_CODEC_ALL | ST_CODEC_MUT) {
+        if matches!(stage, ST_CODEC_ALL | ST_CODEC_MUT | ST_CODEC_INT) {
             let (codec, bytes, what) = self.codec_case(stage, case);
             let payload = vmc::json!({"kind": "codec", "codec": codec.name(), "input_hex": to_hex(&bytes)}).to_string();
             return (format!("noodles_cram::verif::{}_decode(&hex!(\"{}\")) — {what}", codec.name(), to_hex(&bytes)), String::new(), payload);
@@ -1047,7 +1125,7 @@ impl Stages for Plan {
         if stage == ST_NEST {
             return self.nest[case as usize].fp();
         }
-        if matches!(stage, ST_CODEC_ALL | ST_CODEC_MUT) {
+        if matches!(stage, ST_CODEC_ALL | ST_CODEC_MUT | ST_CODEC_INT) {
             let (codec, _, _) = self.codec_case(stage, case);
             return format!("format=cram-codec entry={}_decode", codec.family());
         }
